@@ -291,7 +291,7 @@ def run(scn):
                 def bounces(e):
                     return sum(1 for i in range(1, len(e)) if e[i] > e[i - 1])
 
-                erratic = bool(where["screening"] and a["n_screen"] != b["n_screen"] and min(a["n_screen"], b["n_screen"]) >= 60 and min(bounces(a["screen_errs"]), bounces(b["screen_errs"])) >= 10)
+                erratic = bool(where["screening"] and a["n_screen"] != b["n_screen"] and min(bounces(a["screen_errs"]), bounces(b["screen_errs"])) >= 10)
                 # ... or the induced potential is at rounding-noise level in one twin (exactly zero
                 # currents in one statement of the problem, 1e-18 noise in the other): the relative
                 # criterion then compares noise with noise
@@ -299,8 +299,14 @@ def run(scn):
                 erratic = erratic or bool(where["screening"] and a["n_screen"] != b["n_screen"] and amin < 1e-10)
                 V.append(Violation("unit-dependent", f"update {a['stage']}{a['step']}: dimensionless {wname} differs by {worst:.3g} (relative) between {where['units_a']} and {where['units_b']}" + (f" (screening took {a['n_screen']} vs {b['n_screen']} erratic iterations)" if erratic else ""), quantity=wname, step=a["step"], erratic_screening=erratic, **where))
                 break
+        lib1_ = base.expected_library_error(h1) and base.expected_library_error(h2)
         if base.expected_library_error(h1) != base.expected_library_error(h2):
             h1.probe("twin_convergence_diverged")
+        elif lib1_ and not V and len(t1) != len(t2):
+            # both statements of the problem end in the library's own non-convergence error, one of them a
+            # step later: every step recorded by both agrees, and where an iteration that does not
+            # converge gives up is a threshold decision on rounding-level data
+            h1.probe("twin_both_failed_at_different_steps")
         elif not V and len(t1) != len(t2) and compared == n and not h1.probes.get("twin_refusal_pattern_diverged"):
             V.append(Violation("unit-length", f"the two unit systems made {len(t1)} and {len(t2)} updates", **where))
         # physical outputs in fixed SI units
